@@ -135,6 +135,7 @@ func (x *Exec) doCall(st *State, fr *Frame, cc *ssa.CallCommon, fv Val, args []V
 	}
 	sig := cc.Signature()
 	if con, ok := x.C.Funcs[desc]; ok {
+		k = x.wrapHooks(st, fr, desc, args, pos, k)
 		x.applyContract(st, fr, con, desc, sig, args, pos, k)
 		return
 	}
@@ -452,6 +453,9 @@ func (x *Exec) applyHookEffects(st *State, fr *Frame, h *Hook, extra map[string]
 	}
 	for n, v := range newVals {
 		st.ghost[n] = v
+		if x.dry > 0 && x.dryGhosts != nil {
+			x.dryGhosts[n] = true
+		}
 	}
 }
 
@@ -540,7 +544,7 @@ func (x *Exec) applyContract(st *State, fr *Frame, con *Contract, name string, s
 		if label == "" {
 			label = fmt.Sprint(i + 1)
 		}
-		x.oblige(st, "pre@"+shortCallee(name), label, pos, t, nil)
+		x.oblige(st, "pre@"+shortCallee(name), label, pos, t, c.Props)
 		st.assume(t)
 	}
 	if con.CallsOnce != "" || con.Repeats != "" {
